@@ -78,7 +78,7 @@ func runC09RW(c *Ctx, r *Rng, kind string, nThreads, reps, passes int, onSub boo
 	s.ParkOnT = func(th, l string) bool {
 		return l == label || l == "c09.call" || l == "rep.alloc" || l == "pass.call"
 	}
-	got := make([]interface{}, nThreads)     // what the thread's last call returned
+	got := make([]interface{}, nThreads)      // what the thread's last call returned
 	panicked := make([]interface{}, nThreads) // what the thread's last call panicked with
 	use := func() interface{} {
 		switch kind {
